@@ -38,6 +38,15 @@ type c08Params struct {
 	// Shrink: one connection issues AOFSHRINK; the rewrite re-encodes objects, so
 	// "the log holds the write" is decided on (key, id) instead of the exact bytes
 	Shrink bool `json:"shrink,omitempty"`
+	// Prop: property the scenario is run for (default C08; C03 reuses two scenarios)
+	Prop string `json:"prop,omitempty"`
+}
+
+func (p c08Params) prop() string {
+	if p.Prop != "" {
+		return p.Prop
+	}
+	return "C08"
 }
 
 // isWrite tells whether a harness command is expected to be logged when it is
@@ -172,11 +181,11 @@ func c08Run(job *Job, p c08Params, prefix []int) (out schedOut) {
 		}
 		out.Obs = strings.Join(order, ",")
 		if len(early) > 0 {
-			out.VSig = "C08/ack-before-log"
+			out.VSig = p.prop() + "/ack-before-log"
 			for _, cn := range p.Conns {
 				for _, cmd := range cn.Cmds {
 					if u := strings.ToUpper(cmd[0]); u == "SUBSCRIBE" || u == "PSUBSCRIBE" || (len(cmd) > 2 && strings.ToUpper(cmd[2]) == "FENCE") {
-						out.VSig = "C08/ack-before-log:pipeline-ending-in-stream-command"
+						out.VSig = p.prop() + "/ack-before-log:pipeline-ending-in-stream-command"
 					}
 				}
 			}
@@ -188,7 +197,7 @@ func c08Run(job *Job, p c08Params, prefix []int) (out schedOut) {
 			for k, cmd := range c.Cmds {
 				for _, w := range c08LoggedBytes(cmd, p.Shrink) {
 					if !bytes.Contains(img, w) && out.VSig == "" {
-						out.VSig = "C08/acked-write-missing-from-log"
+						out.VSig = p.prop() + "/acked-write-missing-from-log"
 						out.VDetail = fmt.Sprintf("conn%d cmd%d %v acknowledged but absent from the log after stop", i, k, cmd)
 					}
 				}
@@ -263,6 +272,41 @@ func checkC08(job *Job, res *Result) {
 		if i == 0 {
 			res.Sample(map[string]any{"scenario": sc.Name, "params": p, "outcomes": st.Outcomes})
 		}
+		if res.EngineError != "" {
+			return
+		}
+	}
+}
+
+// ---- c03sched: the part of C03 that needs more than one connection: "every
+// instant at which the process may be killed" includes the instant right after
+// an acknowledgement, while another connection is between applying its write
+// and flushing the log.  Two of the C08 scenarios, reported under C03.
+
+func init() { checks["c03sched"] = checkC03Sched }
+
+func checkC03Sched(job *Job, res *Result) {
+	res.Rule = "SCHED: two connections (SET / SET, SET / GET, SET+GET / GET): every schedule with <= 2 preemptions; at each acknowledgement the log file as of that instant (= what a kill would leave) must hold the acknowledged write; distinct = distinct (scenario, order of commands in the log file, early-ack flag)"
+	if job.Replay != nil {
+		replaySched(job, res, func(params []byte, sched []int) schedOut {
+			var p c08Params
+			mustJSON(params, &p)
+			return c08Run(job, p, sched)
+		})
+		return
+	}
+	set := func(id string) []string { return []string{"SET", "k", id, "POINT", "1", "1"} }
+	get := []string{"GET", "k", "a"}
+	scs := []c08Params{
+		{Prop: "C03", Conns: []c08Conn{{Cmds: [][]string{set("a")}}, {Cmds: [][]string{set("b")}}}},
+		{Prop: "C03", Conns: []c08Conn{{Cmds: [][]string{set("a")}}, {Cmds: [][]string{get}}}},
+		{Prop: "C03", Conns: []c08Conn{{Cmds: [][]string{set("a"), get}}, {Cmds: [][]string{get}}}},
+	}
+	for i, p := range scs {
+		p := p
+		sc := schedScenario{Name: fmt.Sprintf("c03sched.%d", i), Params: p, Run: func(prefix []int) schedOut { return c08Run(job, p, prefix) }}
+		st := exploreSched(job, res, sc, 2)
+		res.Extra[sc.Name] = map[string]any{"execs": st.Execs, "outcomes": len(st.Outcomes), "max_choice_points": st.MaxPoints}
 		if res.EngineError != "" {
 			return
 		}
